@@ -358,7 +358,7 @@ class OpsMixin:
         if isinstance(a, Obj) and isinstance(b, Obj):
             if a.cls != b.cls:
                 return False
-            if a.cls.name == "Mask" and obs:
+            if a.cls.name == "Mask" and obs and all(isinstance(self.mask_flag(m), (bool, int, SBool, SInt, UVal)) for m in (a, b)):
                 fa, fb = self.mask_flag(a), self.mask_flag(b)
                 fe = self.veq(fa, fb, obs)
                 ve = self.veq(a.fields["value"], b.fields["value"], obs)
